@@ -25,7 +25,12 @@ MANIFEST = dict(
           "elements; real float64/float32/int64 buffers of 1025, 2**16+1, 2**20+1 elements and of t, t+1 elements for every integer "
           "constant t in the current source of the anchored modules (enumerated numbers, purity decided on every byte); and every "
           "module-/class-level integer constant the library's code refers to is re-bound to 2, so that its large-input route runs on "
-          "the symbolic payloads."),
+          "the symbolic payloads. The layout axis hands the conversions a VIEW of a larger buffer (every second element, a column, reversed, "
+          "transposed, Fortran order, offset tail, a 0-d unyt_array that is not a quantity) or a read-only buffer, both as object buffers of z3 "
+          "reals (for all values of the view AND of its neighbours) and as real float64 buffers (symbolic target scale, mu, gamma): copying "
+          "forms must leave the whole parent buffer untouched and share no memory with it, in-place forms must rewrite the view's elements "
+          "only; the call-form axis passes the target as string / Unit object and every argument positionally / by keyword on all 8 entries. "
+          "Real float64 buffers meet every input unit of the cover."),
     design="DESIGN.md section 4 C09",
     technique="symbolic execution of the real Python code over z3 real terms; SMT (QF_NRA, root witnesses) obligations per path; counterexample replay")
 EXPLANATION = (
@@ -59,7 +64,19 @@ EXPLANATION = (
     "duration of a case (each constant alone and all together; the configuration is part of the case id `C09/lowthr/<names>/...`): "
     "the pair battery on 3 and 2 symbolic elements, the symbolic-target case and the typed float64/int64/float32 cases then run "
     "through the large-input route with all obligations decided by z3 for all values. The unchanged tree defines no such constant, "
-    "so (c) contributes no case on it. Every copying entry of every family also proves that its result shares no memory with its input."
+    "so (c) contributes no case on it. Every copying entry of every family also proves that its result shares no memory with its input. "
+    "(5) layout / aliasing: the operand is sel(parent) for 9 layouts (whole, parent[1::2], parent[::-1], parent[:, 1], parent.T, Fortran-ordered "
+    "2x2, parent[1:], parent.reshape(()) [0-d unyt_array], read-only); kind `sym`: parent is an object buffer whose EVERY element (view and "
+    "neighbours) is a z3 real in the formula's domain, table target, symbolic mu/gamma; kind `f8`: a real float64 buffer of enumerated non-zero "
+    "values (0 is a fixed point of most formulas and would hide a neighbour converted along), first a pass with table target and fixed "
+    "keywords, then the copying forms to a target of symbolic scale with symbolic mu/gamma. Obligations per entry: formula, unit, shape of "
+    "the result == shape of the view, result shares memory neither with the view nor with the parent, every element of the parent and the "
+    "units of view and parent untouched (copying forms); in-place forms: r is the view, numbers == copying form, formula, the parent's other "
+    "elements exactly untouched and the parent's unit kept; there-and-back through the view. (6) call form: target as str / as Unit object / "
+    "`altkw` (to(u, eq), in_units(u, eq), to_value(u, eq), convert_to_units(u, eq) with the equivalence positional; to_equivalent(unit=, "
+    "equivalence=), convert_to_equivalent(unit=, equivalence=), convert(x=, new_dims=) by keyword): the first layout of a layout case meets all "
+    "three, the others rotate (thorough: all). (7) the real float64 dtype cases meet every input x target unit of the cover (as int64 does) and the "
+    "table-target pass of the dtype cases decides formula and unit for every copying entry with the fixed keywords (mu = 1.25, gamma = 1.5)."
 )
 BOUNDS = {
     "quick": "9 equivalences x all ordered dimension pairs x a covering subset of input/target table units x 9 entry points; "
@@ -74,7 +91,10 @@ BOUNDS = {
              "2**20+1 elements for every ordered pair plus two rotating points of {float64, float32, int64} x {1025, 2**16+1, 2**20+1, t, t+1 "
              "for the integer constants t of the current source (unchanged tree: 16, 128, 2049, 10000)}, shape forms and units rotate; "
              "lowered constants (none on the unchanged tree): per ordered pair the pair battery on 3 symbolic elements and the typed "
-             "float64/int64/float32 cases, each constant alone (sharing the pairs) and all together",
+             "float64/int64/float32 cases, each constant alone (sharing the pairs) and all together; "
+             "layout axis: per ordered pair one f8 case with all 9 layouts (one unit pair of the cover, rotating; first layout x 3 call forms, the "
+             "others one call form each) and one sym case with 2 of the 9 layouts (rotating; lorentz: the 2x2 layouts only as f8); float64 dtype "
+             "cases on every unit pair of the cover",
     "thorough": "9 equivalences x all ordered dimension pairs x all enumerated input x target table units (3-4 per dimension) x 9 entry "
                 "points x scalar and 2-element payloads; all ordered triples of spectral and sound_speed; full uncovered-request matrix; "
                 "symbolic-scale target: every ordered pair x every input unit x both shapes; histories: every step kind on same/sibling "
@@ -84,7 +104,10 @@ BOUNDS = {
                 "the cover, the other five rotate through it); size: symbolic-scale target x all of (3,), (2,3), (17,) [non-linear: (5,)] per "
                 "ordered pair; real buffers: every point of {float64, float32, int64} x {1025, 2**16+1, 2**20+1, t, t+1 for the source's constants} "
                 "for every ordered pair (units and shape forms rotate); lowered constants: pair battery on 3 and 2 elements, symbolic-target "
-                "case on 3 elements and the typed cases over every unit of the cover, each constant alone and all together",
+                "case on 3 elements and the typed cases over every unit of the cover, each constant alone and all together; "
+                "layout axis: f8 cases with all 9 layouts (first layout x 3 call forms, the others one each) on every unit pair of the cover, sym cases "
+                "with all layouts in groups of 3 per ordered pair (linear formulas: every layout x 3 call forms; non-linear: first layout of a group "
+                "x 3, the others one each; lorentz: 2x2 layouts only as f8)",
 }
 OUTSIDE = ("IEEE rounding/overflow (A1: e.g. gamma-1 underflow for v << c); the INPUT unit's scale is a concrete table value "
            "(the _convert bodies cancel same-dimension units through sympy, which cannot hold z3 terms); values outside the formula's domain "
@@ -98,7 +121,9 @@ OUTSIDE = ("IEEE rounding/overflow (A1: e.g. gamma-1 underflow for v << c); the 
            "array costs about 0.1 ms per element and operation, so the numbers of the large buffers are enumerated, not symbolic: tiled decades, "
            "fixed mu/gamma, table target); size limits the library computes at run time instead of writing them down as an integer "
            "constant are met only if they lie below the top of the ladder; constants kept in containers (dict/tuple values) are not re-bound, "
-           "only walked as real sizes")
+           "only walked as real sizes; layout axis: views of rank > 2, views with more than 4 elements, overlapping (as_strided) and zero-stride "
+           "(broadcast) views, views of integer / float32 buffers, in-place requests on read-only buffers (they raise; not judged), "
+           "symbolic 2x2 layouts for lorentz (walked on real float64 buffers only); call forms: equivalence given as anything but its name")
 CONFORM = {"quick": 48, "thorough": 96}
 ASSUMPTIONS = [
     "C09: input unit scales are the concrete table values (value symbols are written as SI magnitude / scale); the SI magnitude of a result is value * Unit.base_value (minus base_offset for degC/degF targets), read from the Unit object, never through unyt's conversion code; for the user-defined target unit it is value * the scale symbol the harness registered",
@@ -271,30 +296,47 @@ COPY_ENTRIES = ["to", "in_units", "to_equivalent", "to_value", "Equivalence.conv
 INPLACE_ENTRIES = ["convert_to_units", "convert_to_equivalent", "Equivalence(in_place).convert"]
 
 
-def request(ctx, q, ustr, eq, kw, entry):
-    """one request through one entry point; returns the object holding the result (None: the entry point returned nothing)"""
+SPELLS = ("str", "unitobj", "altkw")
+
+
+def request(ctx, q, ustr, eq, kw, entry, spell="str"):
+    """one request through one entry point; returns the object holding the result (None: the entry point returned nothing).
+    `spell` is the call form: "str" - target as a string, arguments as the docs write them; "unitobj" - the target is a Unit
+    object (of the input's registry); "altkw" - every argument the default form passes by keyword is passed positionally and
+    vice versa (to(u, eq), in_units(u, eq), to_value(u, eq), convert_to_units(u, eq); to_equivalent(unit=, equivalence=),
+    convert_to_equivalent(unit=, equivalence=))."""
     unyt = ctx.mods["unyt"]
+    tgt_arg = unyt.Unit(ustr, registry=q.units.registry) if spell == "unitobj" else ustr
+    alt = spell == "altkw"
     if entry == "to":
-        return q.to(ustr, equivalence=eq, **kw)
+        return q.to(tgt_arg, eq, **kw) if alt else q.to(tgt_arg, equivalence=eq, **kw)
     if entry == "in_units":
-        return q.in_units(ustr, equivalence=eq, **kw)
+        return q.in_units(tgt_arg, eq, **kw) if alt else q.in_units(tgt_arg, equivalence=eq, **kw)
     if entry == "to_equivalent":
-        return q.to_equivalent(ustr, eq, **kw)
+        return q.to_equivalent(unit=tgt_arg, equivalence=eq, **kw) if alt else q.to_equivalent(tgt_arg, eq, **kw)
     if entry == "to_value":
-        return q.to_value(ustr, equivalence=eq, **kw)
+        return q.to_value(tgt_arg, eq, **kw) if alt else q.to_value(tgt_arg, equivalence=eq, **kw)
     if entry == "Equivalence.convert":
         tgt = unyt.Unit(ustr, registry=q.units.registry)
-        r = ctx.mods["UE"].equivalence_registry[eq]().convert(q, tgt.dimensions, **kw)
+        E = ctx.mods["UE"].equivalence_registry[eq]
+        r = E(in_place=False).convert(x=q, new_dims=tgt.dimensions, **kw) if alt else E().convert(q, tgt.dimensions, **kw)
         return None if r is None else r.in_units(tgt)
     if entry == "convert_to_units":
-        q.convert_to_units(ustr, equivalence=eq, **kw)
+        if alt:
+            q.convert_to_units(tgt_arg, eq, **kw)
+        else:
+            q.convert_to_units(tgt_arg, equivalence=eq, **kw)
         return q
     if entry == "convert_to_equivalent":
-        q.convert_to_equivalent(ustr, eq, **kw)
+        if alt:
+            q.convert_to_equivalent(unit=tgt_arg, equivalence=eq, **kw)
+        else:
+            q.convert_to_equivalent(tgt_arg, eq, **kw)
         return q
     if entry == "Equivalence(in_place).convert":
         tgt = unyt.Unit(ustr, registry=q.units.registry)
-        r0 = ctx.mods["UE"].equivalence_registry[eq](in_place=True).convert(q, tgt.dimensions, **kw)
+        E = ctx.mods["UE"].equivalence_registry[eq]
+        r0 = E(True).convert(x=q, new_dims=tgt.dimensions, **kw) if alt else E(in_place=True).convert(q, tgt.dimensions, **kw)
         if r0 is None:
             return None
         # what convert_to_equivalent does: the converted data are in q itself; the returned wrapper must say the same
@@ -305,9 +347,9 @@ def request(ctx, q, ustr, eq, kw, entry):
     raise KeyError(entry)
 
 
-def run_entry(ctx, q, ustr, eq, kw, entry):
+def run_entry(ctx, q, ustr, eq, kw, entry, spell="str"):
     """one request through one entry point; returns (flat values, result unit or None, the object holding the result)"""
-    r = request(ctx, q, ustr, eq, kw, entry)
+    r = request(ctx, q, ustr, eq, kw, entry, spell)
     if r is None:
         return None, None, None
     if entry == "to_value":
@@ -866,6 +908,12 @@ def make_dtype_case(eq, da, db, ua, ub, dt, forms=("array", "scalar")):
                 ctx.require(f"returns a value/table target/{e}/{form}", r is not None and np.size(r) == len(vs))
                 ctx.require(f"input untouched/table target/{e}/{form}", typed_untouched(unyt, q, buf, dtype, u0, ua), now=repr(q)[:120])
                 ctx.require(f"fresh object/table target/{e}/{form}", r is not None and independent(r, q))
+                if r is not None and np.size(r) == len(vs):
+                    got = elements(r) if e == "to_value" else payload(r)
+                    ctx.require(f"formula/table target/{e}/{form}", And(*[formula_holds(eq, da, db, xi, y * sb, K, kw_fix.get("mu"), kw_fix.get("gamma"))
+                                                                          for xi, y in zip(si_in, got)]), entry=e, dtype=dt, values=vs)
+                    if e != "to_value":
+                        ctx.require(f"unit/table target/{e}/{form}", unit_is(ctx, r.units, ub), got=str(r.units))
             # ---- copying forms, target unit of ANY positive scale
             ref = None
             for e in COPY_ENTRIES:
@@ -1207,6 +1255,195 @@ def make_size_case(eq, da, db, ua, ub, dt, n, form):
                 budget_s=600, weight=2 if n > 2**17 else 1)
 
 
+# --------------------------------------------------------------------------- layout / aliasing axis and call-form axis
+#
+# The quantity handed to a conversion is a VIEW of a larger buffer (every second element, one column, reversed, transposed,
+# Fortran order, a 0-d unyt_array that is not a unyt_quantity), or read-only, or a zero-stride broadcast. A conversion that
+# works through .base / ravel() / a contiguity short cut, or that re-wraps instead of copying, shows here: the copying forms
+# must leave the WHOLE parent buffer untouched and share no memory with it, the in-place forms must rewrite exactly the
+# elements of the view (same numbers and unit as the copying form) and no neighbour. Two payload kinds: "sym" - object buffer
+# of z3 reals (values, neighbours, mu, gamma for-all); "f8" - a REAL float64 buffer (what production data are; any gate on
+# dtype.kind == "f" is invisible to an object payload) with enumerated values, where the copying forms go to a target of
+# symbolic scale with symbolic mu, gamma. The call form (`spell`, see request()) rotates with the layout.
+
+def _sel_strided(p):
+    return p[1::2]
+
+
+def _sel_reversed(p):
+    return p[::-1]
+
+
+def _sel_column(p):
+    return p[:, 1]
+
+
+def _sel_transposed(p):
+    return p.T
+
+
+def _sel_whole(p):
+    return p
+
+
+def _sel_0d(p):
+    return p.reshape(())
+
+
+def _sel_tail(p):
+    return p[1:]
+
+
+# name -> (parent shape, selector, Fortran order, writable)
+LAYOUTS = {
+    "whole": ((2,), _sel_whole, False, True),
+    "strided": ((5,), _sel_strided, False, True),
+    "reversed": ((2,), _sel_reversed, False, True),
+    "column": ((2, 3), _sel_column, False, True),
+    "transposed": ((2, 2), _sel_transposed, False, True),
+    "fortran": ((2, 2), _sel_whole, True, True),
+    "tail": ((3,), _sel_tail, False, True),  # contiguous, but base is not None and the data pointer is offset
+    "0d-array": ((1,), _sel_0d, False, True),
+    "readonly": ((2,), _sel_whole, False, False),
+}
+
+
+def make_layout_case(eq, da, db, ua, ub, layouts, kind, thorough=False):
+    """`layouts`: the layouts walked in this case, each with every call form of SPELLS"""
+    def h(ctx):
+        mods = ctx.mods
+        unyt = mods["unyt"]
+        K = consts(mods)
+        kw_sym = kwargs_for(ctx, eq)
+        sa = float(unyt.Unit(ua).base_value)
+        sb = float(unyt.Unit(ub).base_value)
+        reg = None
+        if kind == "f8":
+            st = ctx.real(XT + "_s", pos=True)
+            reg = ctx.registry([])
+            ctx.add_row(reg, XT, dim_obj(mods, db), st)
+        for li, layout in enumerate(layouts):
+            # the first layout of a case meets every call form, the others one each (rotating): the two axes are independent
+            spells = SPELLS if (li == 0 or (thorough and kind == "sym" and eq not in NONLINEAR)) else (SPELLS[li % len(SPELLS)],)
+            pshape, sel, fortran, writable = LAYOUTS[layout]
+            psize = int(np.prod(pshape))
+            idx = [int(i) for i in np.asarray(sel(np.arange(psize).reshape(pshape))).ravel()]  # parent positions of the view's elements
+            others = [i for i in range(psize) if i not in idx]
+            if kind == "sym":
+                # (prefix: the conformance pin of x_3 is gamma == 1 exactly, where v(gamma) is singular)
+                X = input_symbols(ctx, eq, da, pshape, K, prefix="w" + layout[:2])
+                stored = [x * (1.0 / sa) for x in X]
+                if not ctx.symbolic:
+                    stored = [float(v) for v in stored]
+                # copying and in-place forms alike: table target, symbolic keywords
+                tgt_c, kw_c, s_c = ub, kw_sym, sb
+                tgt_i, kw_i, s_i = ub, kw_sym, sb
+            else:
+                tile = typed_values(eq, da, sa, np.dtype("float64"), K)
+                # no zeros where there is a choice: 0 is a fixed point of most formulas, so a neighbour that was converted along with
+                # the view, or a dropped factor, would not show on it
+                tile = [v for v in tile if v != 0] or tile
+                stored = [float(tile[i % len(tile)]) for i in range(psize)]
+                tgt_c, kw_c, s_c = XT, kw_sym, st
+                tgt_i, kw_i, s_i = ub, {k: FIXED_KW[k] for k in EQ_KW.get(eq, [])}, sb
+            si_parent = [v * sa for v in stored]
+            xs_view = [stored[i] for i in idx]
+            si_view = [si_parent[i] for i in idx]
+
+            def fresh(registry=None):
+                arr = np.empty(pshape, dtype=object if (kind == "sym" and ctx.symbolic) else float)
+                for i, ix in enumerate(np.ndindex(*pshape)):
+                    arr[ix] = stored[i]
+                if fortran:
+                    arr = np.asfortranarray(arr)
+                parent = unyt.unyt_array(arr, ua, registry=registry)
+                if not writable:
+                    parent.flags.writeable = False
+                return parent, sel(parent)
+
+            def parent_is(parent, positions):
+                flat = payload(parent)
+                return all_exact([flat[i] for i in positions], [stored[i] for i in positions])
+
+            def want_unit(u, tgt):
+                if tgt == XT:
+                    return And(exact_eq(u.base_value, s_c), str(u) == XT, u.dimensions == dim_obj(mods, db), u.base_offset == 0.0)
+                return unit_is(ctx, u, tgt)
+
+            if kind == "f8":
+                # table target and fixed keywords first: all numbers are concrete, so purity, independence and the formula are
+                # settled whatever a changed library does later with a term it cannot store in a float buffer
+                for spell in spells:
+                    L = f"{layout}/{spell}/table target"
+                    for e in COPY_ENTRIES:
+                        parent, q = fresh()
+                        u0 = q.units
+                        vals, u, r = run_entry(ctx, q, tgt_i, eq, kw_i, e, spell)
+                        ctx.require(f"{L}/returns a value/{e}", vals is not None and len(vals) == len(idx))
+                        ctx.require(f"{L}/input and its parent buffer untouched/{e}",
+                                    And(parent_is(parent, range(psize)), all_exact(payload(q), xs_view), q.units is u0, unit_is(ctx, q.units, ua), unit_is(ctx, parent.units, ua)))
+                        if vals is None:
+                            continue
+                        ctx.require(f"{L}/fresh object/{e}", independent(r, q) and independent(r, parent))
+                        ctx.require(f"{L}/formula/{e}", And(*[formula_holds(eq, da, db, xi, y * s_i, K, kw_i.get("mu"), kw_i.get("gamma")) for xi, y in zip(si_view, vals)]), entry=e)
+                        if u is not None:
+                            ctx.require(f"{L}/unit/{e}", unit_is(ctx, u, tgt_i), got=str(u))
+            ref = None
+            for spell in spells:
+                L = f"{layout}/{spell}"
+                for e in COPY_ENTRIES:
+                    parent, q = fresh(reg)
+                    u0 = q.units
+                    vals, u, r = run_entry(ctx, q, tgt_c, eq, kw_c, e, spell)
+                    ctx.require(f"{L}/returns a value/{e}", vals is not None and len(vals) == len(idx))
+                    if vals is None:
+                        continue
+                    if spell == spells[0]:
+                        ctx.observe(f"{layout}/{e}", [y * s_c for y in vals])
+                    ctx.require(f"{L}/formula/{e}", And(*[formula_holds(eq, da, db, xi, y * s_c, K, kw_c.get("mu"), kw_c.get("gamma")) for xi, y in zip(si_view, vals)]), entry=e)
+                    if u is not None:
+                        ctx.require(f"{L}/unit/{e}", want_unit(u, tgt_c), got=str(u))
+                    ctx.require(f"{L}/shape/{e}", tuple(np.shape(r)) == tuple(np.shape(q)), got=str(np.shape(r)))
+                    ctx.require(f"{L}/fresh object/{e}", independent(r, q) and independent(r, parent))
+                    if ref is None:
+                        ref = vals
+                    else:
+                        ctx.require(f"{L}/entry points agree/{e}", all_close(vals, ref))
+                    ctx.require(f"{L}/input and its parent buffer untouched/{e}",
+                                And(parent_is(parent, range(psize)), all_exact(payload(q), xs_view), q.units is u0, unit_is(ctx, q.units, ua), unit_is(ctx, parent.units, ua)))
+            if not writable:
+                continue
+            parent, q = fresh()
+            cref = payload(request(ctx, q, tgt_i, eq, kw_i, "to_equivalent"))
+            for spell in spells:
+                L = f"{layout}/{spell}"
+                for e in INPLACE_ENTRIES:
+                    parent, q = fresh()
+                    vals, u, r = run_entry(ctx, q, tgt_i, eq, kw_i, e, spell)
+                    ctx.require(f"{L}/returns a value/{e}", vals is not None and len(vals) == len(idx))
+                    if vals is None:
+                        continue
+                    if spell == spells[0]:
+                        ctx.observe(f"{layout}/{e}", vals)
+                    ctx.require(f"{L}/in-place is in place/{e}", r is q and (q is parent or bool(np.shares_memory(np.asarray(q), np.asarray(parent)))))
+                    ctx.require(f"{L}/in-place == copy numbers/{e}", all_close(payload(q), cref), entry=e)
+                    ctx.require(f"{L}/in-place == copy unit/{e}", unit_is(ctx, q.units, tgt_i), got=str(q.units))
+                    ctx.require(f"{L}/formula/{e}", And(*[formula_holds(eq, da, db, xi, y * s_i, K, kw_i.get("mu"), kw_i.get("gamma")) for xi, y in zip(si_view, payload(q))]), entry=e)
+                    # the parent sees the view's new numbers at the view's positions and nothing else
+                    flat = payload(parent)
+                    ctx.require(f"{L}/in-place rewrites the view's elements only/{e}", And(parent_is(parent, others), all_exact([flat[i] for i in idx], payload(q)), unit_is(ctx, parent.units, ua) if q is not parent else True))
+            # there and back through the view
+            parent, q = fresh()
+            back = request(ctx, request(ctx, q, tgt_i, eq, kw_i, "to_equivalent"), ua, eq, kw_i, "to_equivalent")
+            ctx.require(f"{layout}/there-and-back", And(same_values(eq, da, payload(back), xs_view, sa, K), unit_is(ctx, back.units, ua), parent_is(parent, range(psize))))
+
+    tag = "all" if len(layouts) == len(LAYOUTS) else "+".join(layouts)
+    return Case(f"C09/layout/{kind}/{tag}/{eq}/{da}>{db}/{ua}>{ub}", h,
+                bounds=("symbolic: every element of the parent buffer, mu, gamma; concrete table units" if kind == "sym" else
+                        "real float64 parent buffer with enumerated values; symbolic: scale of the target unit, mu, gamma (copying forms)") + "; every call form",
+                budget_s=1800 if eq in NONLINEAR else 600, weight=10 if eq == "lorentz" else (4 if eq in NONLINEAR else 1))
+
+
 def _cover(A, B):
     """a covering set of (input unit, target unit) pairs: every unit of A is an input and every unit of B a target at least once"""
     n = max(len(A), len(B))
@@ -1303,7 +1540,7 @@ def cases(tier, mods):
             for j, dt in enumerate(TYPED_DTYPES[: 6 if quick else None]):
                 # int64 (what a python int becomes) meets every unit of the cover, the other dtypes rotate through it in the quick tier;
                 # thorough: int64, float64, int32, uint8, float32 meet every unit of the cover, the other five rotate
-                for ua, ub in ([pairs[(j + k) % len(pairs)]] if (quick and dt != "int64") or j >= 5 else pairs):
+                for ua, ub in ([pairs[(j + k) % len(pairs)]] if (quick and dt not in ("int64", "float64")) or j >= 5 else pairs):
                     if typed_values(eq, da, float(mods["unyt"].Unit(ua).base_value), dt, K):  # e.g. no uint8 holds gamma >= 100 % squared
                         # quick: int64 and float64 as array and as 0-d quantity, the other dtypes alternate between the two
                         forms = ("array", "scalar") if not quick or dt in ("int64", "float64") else (("array", "scalar")[(j + k) % 2],)
@@ -1326,6 +1563,21 @@ def cases(tier, mods):
             if not quick:
                 low_bases.append((k, make_pair_case(eq, da, db, ua, ub, (2,))))
                 low_bases.append((k, make_symtarget_case(eq, da, db, ua, (3,))))
+            # ---- layout / aliasing axis x call form x payload kind
+            lays = list(LAYOUTS)
+            # real float64 buffers: every layout and call form in one case; quick: one unit pair of the cover (rotating), thorough: all
+            for i, (ua, ub) in enumerate(pairs):
+                if quick and i != k % len(pairs):
+                    continue
+                if typed_values(eq, da, float(mods["unyt"].Unit(ua).base_value), "float64", K):
+                    out.append(make_layout_case(eq, da, db, ua, ub, tuple(lays), "f8", not quick))
+            # symbolic payloads: quick two layouts per ordered pair (rotating), thorough all of them in groups of three
+            # (lorentz: layouts whose view has 4 elements - two roots each - cost minutes and are left to the f8 kind)
+            sym_lays = [l for l in lays if not (eq == "lorentz" and len(LAYOUTS[l][0]) == 2 and l != "column")]
+            groups = [[sym_lays[(2 * k) % len(sym_lays)], sym_lays[(2 * k + 1) % len(sym_lays)]]] if quick else [sym_lays[i:i + 3] for i in range(0, len(sym_lays), 3)]
+            for i, g in enumerate(groups):
+                ua, ub = pairs[(i + k + 1) % len(pairs)]
+                out.append(make_layout_case(eq, da, db, ua, ub, tuple(dict.fromkeys(g)), "sym", not quick))
             # ---- target unit of symbolic scale, symbolic payload
             for j, ua in enumerate(UNITS[da]):
                 if quick and j != k % len(UNITS[da]):
